@@ -162,11 +162,12 @@ def run_sequences(pid, seed, cfg, seqs, wall, hashseed=0):
     return outs
 
 
-def process_history_violation(pid, seed, cfg, idx, W, wall, pred_b=None, hashseed=0):
+def process_history_violation(pid, seed, cfg, idx, W, wall, pred_b=None, hashseed=0, pred_a=None, max_trials=40):
     """Case idx gave different outcomes in the sweep worker (predecessors idx-W, idx-2W, ...) and in
     the echo worker (predecessors 0..idx-1, or pred_b).  Reproduce in fresh interpreters, then shrink
     the predecessor lists; the replay file names both."""
-    pred_a = list(range(idx % W, idx, W))
+    if pred_a is None:
+        pred_a = list(range(idx % W, idx, W))
     if pred_b is None:
         pred_b = list(range(0, idx))
     a, b = run_sequences(pid, seed, cfg, [pred_a + [idx], pred_b + [idx]], wall, hashseed)
@@ -178,7 +179,7 @@ def process_history_violation(pid, seed, cfg, idx, W, wall, pred_b=None, hashsee
     side = pred_a if a.get(idx) != ref else pred_b
     trials = 0
     changed = True
-    while changed and trials < 40 and len(side) > 1:
+    while changed and trials < max_trials and len(side) > 1:
         changed = False
         half = len(side) // 2
         cands = [side[:half], side[half:]] + [side[:i] + side[i + 1:] for i in range(len(side))][:6]
